@@ -93,6 +93,13 @@ def inSjisDomain (s : Str) : Bool :=
   | some b => !b.contains 0 && c.dec b == s && !s.contains 0
   | none => false
 
+/-- Rust's `String::from_utf8` accepts exactly the shortest-form encodings of scalar values:
+decoding and re-encoding gives the same bytes. -/
+def inUtf8Strict (s : Str) : Bool :=
+  match Utf.utf8Dec s with
+  | some cs => cs.all (fun x => decide (Utf.IsScalar x)) && Utf.utf8Enc cs == s
+  | none => false
+
 /-- Valid UTF-8 of NUL-free scalar values (what a NUL-free Rust `String` is). -/
 def inUnicodeDomain (s : Str) : Bool :=
   match Utf.utf8Dec s with
@@ -385,10 +392,29 @@ def stepC07 (st : St) (cf impl : List String) : St × String × String :=
 
 /-! ### family -/
 
+/-- Every string field of the line is valid UTF-8 (mirror of `strings_ok` in the harness: a shrunk
+replay may cut a multi-byte character in half; such a line is not a case of the API). -/
+def stringsOk (cf : List String) : Bool :=
+  let ok (h : String) : Bool := h == "-" || h == "~" ||
+    (match bytesOfHex h with | some b => (Utf.utf8Dec b).isSome && inUtf8Strict b | none => false)
+  let pairsOk (l : String) (from_ : Nat) : Bool :=
+    l == "~" || (l.splitOn ",").all (fun p => ((p.splitOn ":").drop from_).all ok)
+  match cf with
+  | _ :: op :: rest =>
+    if op == "rt" || op == "rtd" || op == "sec" || op == "frombytes" || op == "fromarchive" then
+      ok (rest.getD 2 "") && pairsOk (rest.getD 3 "~") 0
+    else if op == "hs" then ok (rest.getD 2 "") && pairsOk (rest.getD 3 "~") 0 && pairsOk (rest.getD 5 "~") 1
+    else if op == "fa" then pairsOk (rest.getD 3 "~") 1
+    else if op == "set" then ok (rest.getD 0 "") && ok (rest.getD 1 "")
+    else if op == "del" || op == "has" || op == "get" || op == "title" || op == "setget" then ok (rest.getD 0 "")
+    else true
+  | _ => false
+
 def family : Family where
   State := St
   init := {}
   step := fun st cf impl =>
+    if !stringsOk cf then (st, "bad-case not-utf8", "ok skip (a string field is not UTF-8)") else
     match cf with
     | [_, "rt", f, e, title, entries] =>
       match fmtOf f, endianOf e, bytesOfHex title, parsePairs entries with
